@@ -35,11 +35,15 @@ def _to_expr(prop):
     return bool(prop)
 
 
-def explore(run, *, time_limit=120.0, max_paths=10 ** 9, max_viol=8, step_budget=400_000,
-            qtimeout_ms=20_000, sample_per_tag=1):
-    """run(ctx) -> (prop, tag) | (prop, tag, info).  Returns a result dict."""
+def explore(run, *, time_limit=120.0, max_paths=10 ** 9, max_viol=24, step_budget=400_000,
+            qtimeout_ms=20_000, sample_per_tag=1, initial_stack=None, keep_pending=False):
+    """run(ctx) -> (prop, tag) | (prop, tag, info).  Returns a result dict.
+
+    initial_stack: decision prefixes to explore (default: the root).  keep_pending: when the
+    time limit stops the exploration, return the unexplored prefixes in res["pending"] so that
+    the caller can hand them to other workers (each prefix denotes a disjoint subtree)."""
     t0 = time.time()
-    stack = [[]]
+    stack = [list(map(tuple, p)) for p in initial_stack] if initial_stack is not None else [[]]
     res = {
         "paths": 0, "infeasible": 0, "checks": 0, "solver_s": 0.0, "unknown": 0,
         "realised_paths": 0, "realised_why": {}, "step_budget_hits": 0, "timed_out": False,
@@ -51,6 +55,7 @@ def explore(run, *, time_limit=120.0, max_paths=10 ** 9, max_viol=8, step_budget
     while stack:
         if time.time() - t0 > time_limit or res["paths"] >= max_paths:
             res["timed_out"] = True
+            res["stop_reason"] = "time" if res["paths"] < max_paths else "paths"
             break
         prefix = stack.pop()
         ctx = Ctx(prefix, step_budget=step_budget, qtimeout_ms=qtimeout_ms)
@@ -135,6 +140,8 @@ def explore(run, *, time_limit=120.0, max_paths=10 ** 9, max_viol=8, step_budget
     res["entered"] = sorted(res["entered"])
     res["notes"] = sorted(res["notes"])
     res["pending_prefixes"] = len(stack)
+    if keep_pending and stack and res.get("stop_reason") == "time":
+        res["pending"] = [[list(d) for d in p] for p in stack]
     Ctx.cur = None
     return res
 
@@ -190,8 +197,22 @@ def run_job(job):
         mod.setup_models()
     fn = getattr(mod, job["func"])
     params = job.get("params", {})
-    lim = job.get("limits", {})
+    lim = dict(job.get("limits", {}))
     t0 = time.time()
+    deadline = job.get("_deadline")
+    if deadline is not None:
+        # work sharing: run one slice; what is left goes back to the pool
+        left = deadline - t0
+        if left <= 1.0:
+            pend = job.get("_initial_stack") or [[]]
+            r = _empty_result(t0)
+            r.update(timed_out=True, stop_reason="time", pending_prefixes=len(pend), pending=pend)
+            r["job"] = {"name": job.get("name"), "module": job["module"], "func": job["func"], "params": params}
+            return r
+        lim["time_limit"] = min(lim.get("time_limit", 120.0), job.get("_slice", 1e9), left)
+        lim["keep_pending"] = True
+        if job.get("_initial_stack") is not None:
+            lim["initial_stack"] = job["_initial_stack"]
     try:
         r = explore(lambda ctx: fn(ctx, **params), **lim)
     except BaseException as e:  # harness construction failure
@@ -204,7 +225,60 @@ def run_job(job):
     return r
 
 
-def run_jobs(jobs, nproc=None, progress=None):
+def _empty_result(t0=None):
+    return {"paths": 0, "violations": [], "outcomes": {}, "checks": 0, "solver_s": 0.0, "unknown": 0,
+            "realised_paths": 0, "realised_why": {}, "step_budget_hits": 0, "timed_out": False,
+            "samples": [], "entered": [], "notes": [], "obligations": 0, "discharged": 0,
+            "infeasible": 0, "pending_prefixes": 0, "nontrivial": 0, "errors": [],
+            "wall_s": (time.time() - t0) if t0 else 0.0}
+
+
+_SUM = ("paths", "infeasible", "checks", "solver_s", "unknown", "realised_paths", "step_budget_hits",
+        "obligations", "discharged", "nontrivial", "wall_s")
+
+
+def _merge(acc, r):
+    """fold the result of one slice of a job into the accumulated result of that job"""
+    if acc is None:
+        acc = _empty_result()
+        acc["job"] = r.get("job")
+        acc["slices"] = 0
+        acc["pending_prefixes"] = 0
+    acc["slices"] += 1
+    for k in _SUM:
+        acc[k] = acc.get(k, 0) + (r.get(k, 0) or 0)
+    for k in ("outcomes", "realised_why"):
+        for t, n in (r.get(k) or {}).items():
+            acc[k][t] = acc[k].get(t, 0) + n
+    acc["entered"] = sorted(set(acc["entered"]) | set(r.get("entered") or ()))
+    acc["notes"] = sorted(set(acc["notes"]) | set(r.get("notes") or ()))
+    seen = {v["tag"] for v in acc["violations"]}
+    per_tag = {}
+    for v in acc["violations"]:
+        per_tag[v["tag"]] = per_tag.get(v["tag"], 0) + 1
+    for v in r.get("violations") or ():
+        if per_tag.get(v["tag"], 0) < 48:
+            acc["violations"].append(v)
+            per_tag[v["tag"]] = per_tag.get(v["tag"], 0) + 1
+    have = {s_["tag"] for s_ in acc["samples"]}
+    for s_ in r.get("samples") or ():
+        if s_["tag"] not in have and len(acc["samples"]) < 12:
+            acc["samples"].append(s_)
+            have.add(s_["tag"])
+    acc["errors"] = (acc.get("errors") or []) + list(r.get("errors") or ())
+    if r.get("fatal"):
+        acc["fatal"] = r["fatal"]
+    return acc
+
+
+def run_jobs(jobs, nproc=None, progress=None, budget_s=None, slice_s=None):
+    """Run the jobs on a process pool.
+
+    budget_s (wall seconds for the whole call) switches on work sharing: a job runs in slices of
+    at most slice_s seconds; when a slice ends with unexplored decision prefixes they are split
+    into chunks and queued behind the jobs that have not had a first slice, so that cores that
+    run out of jobs take over subtrees of the long ones.  A job is exhaustive only when no prefix
+    of it is left at the deadline."""
     import concurrent.futures as cf
     import multiprocessing as mp
 
@@ -212,21 +286,57 @@ def run_jobs(jobs, nproc=None, progress=None):
     if len(jobs) == 0:
         return []
     ctx = mp.get_context("fork")
-    out = [None] * len(jobs)
+    share = budget_s is not None
+    deadline = time.time() + budget_s if share else None
+    acc = [None] * len(jobs)
+    left_over = [0] * len(jobs)
+    finished = [False] * len(jobs)
+    outstanding = [0] * len(jobs)
+
+    def fail(i, e):
+        r = _empty_result()
+        r["fatal"] = repr(e)
+        r["job"] = {"name": jobs[i].get("name"), "module": jobs[i]["module"], "func": jobs[i]["func"],
+                    "params": jobs[i].get("params", {})}
+        return r
+
     with cf.ProcessPoolExecutor(max_workers=nproc, mp_context=ctx, max_tasks_per_child=None) as ex:
-        futs = {ex.submit(run_job, j): i for i, j in enumerate(jobs)}
-        for f in cf.as_completed(futs):
-            i = futs[f]
-            try:
-                out[i] = f.result()
-            except BaseException as e:
-                out[i] = {"fatal": repr(e), "paths": 0, "violations": [], "outcomes": {}, "checks": 0,
-                          "solver_s": 0, "unknown": 0, "realised_paths": 0, "realised_why": {},
-                          "step_budget_hits": 0, "timed_out": False, "samples": [], "entered": [],
-                          "notes": [], "obligations": 0, "discharged": 0, "infeasible": 0,
-                          "pending_prefixes": 0, "wall_s": 0, "nontrivial": 0,
-                          "job": {"name": jobs[i].get("name"), "module": jobs[i]["module"],
-                                  "func": jobs[i]["func"], "params": jobs[i].get("params", {})}}
-            if progress:
-                progress(i, out[i])
-    return out
+        futs = {}
+        for i, j in enumerate(jobs):
+            jj = dict(j)
+            if share and not j.get("twin"):
+                jj["_deadline"] = deadline
+                jj["_slice"] = slice_s or 60.0
+            futs[ex.submit(run_job, jj)] = i
+            outstanding[i] += 1
+        while futs:
+            done, _ = cf.wait(list(futs), return_when=cf.FIRST_COMPLETED)
+            for f in done:
+                i = futs.pop(f)
+                outstanding[i] -= 1
+                try:
+                    r = f.result()
+                except BaseException as e:  # noqa: BLE001
+                    r = fail(i, e)
+                pend = r.pop("pending", None)
+                acc[i] = _merge(acc[i], r)
+                if pend and share and time.time() < deadline - 1.0 and not r.get("fatal"):
+                    # hand the unexplored subtrees to the pool, shallow (big) ones spread out
+                    nchunks = max(1, min(len(pend), nproc))
+                    chunks = [pend[k::nchunks] for k in range(nchunks)]
+                    for ch in chunks:
+                        jj = dict(jobs[i])
+                        jj["_deadline"] = deadline
+                        jj["_slice"] = slice_s or 60.0
+                        jj["_initial_stack"] = ch
+                        futs[ex.submit(run_job, jj)] = i
+                        outstanding[i] += 1
+                elif r.get("timed_out"):
+                    left_over[i] += r.get("pending_prefixes", 0) or (len(pend) if pend else 0) or 1
+                if outstanding[i] == 0 and not finished[i]:
+                    finished[i] = True
+                    acc[i]["timed_out"] = left_over[i] > 0
+                    acc[i]["pending_prefixes"] = left_over[i]
+                    if progress:
+                        progress(i, acc[i])
+    return acc
